@@ -338,6 +338,23 @@ def const_buffers_model(lengths, raw=False):
   sg = mb.subgraph()
   x = sg.input('x', (1, 1))
   for i, n in enumerate(lengths):
+    if isinstance(n, tuple) and n[0] == 'same':
+      # same content as every other ('same', k) entry of that length
+      k = int(n[1])
+      if raw and k % 4:
+        c = sg.const(f'c_{i}', (np.arange(k) % 100).astype(np.int8))
+        y = sg.act(f'y_{i}', (k,))
+        o = S.CastOptionsT()
+        o.inDataType = TT.INT8
+        o.outDataType = TT.FLOAT32
+        sg._op(BO.CAST, [c], [y], S.BuiltinOptions.CastOptions, o)
+        sg.output(y)
+      else:
+        kk = max(1, k // 4)
+        other = sg.const(f'c_{i}', np.arange(kk, dtype=np.float32).reshape(
+            kk, 1))
+        sg.output(sg.binary('ADD', x, other, f'y_{i}'))
+      continue
     if isinstance(n, str):
       # 'U<k>': a left-over buffer of k bytes that no tensor refers to
       mb.new_buffer(bytes((j * 7 + i) % 251 for j in range(int(n[1:]))))
